@@ -823,7 +823,7 @@ def c08(tier):
     rng = random.Random(vlib.seed())
     P = c08_positions(rng, tier)
     delays = [0, 3000, 9000, 9900, 10000, 10100, 11000, 60000]
-    observers = [None, '90,0', '-90, 0', ' 90 , 0 ', '48.5,11.25']
+    observers = [None, '90,0', '-90, 0', ' 90 , 0 ', '48.5,11.25', '-17.75, 178.0', '10, -179.5', '0,0', '-33.9,151.2']
     groups = []
     k = 0
     for (lat, lon) in P:
